@@ -321,5 +321,5 @@ CLAIM = {
              "observations) and of the valid-time match. Necessary conditions; outputs on real files are not produced.",
     "note": "Trusted: CPython ast, vsa symbolic folding, scipy.signal.convolve/interp1d. window.py's run-length algorithm itself is not decided.",
     "technique": "static analysis: extraction of the writer's (name, dims, dtype, value) table by symbolic folding; structural patterns on the "
-                 "folded values; NaN-laundering comparison rule",
+                 "folded values (cumulative axis decided by substituting the axis name); exact NetCDF type of the time coordinate; NaN-laundering comparison rule",
 }
